@@ -485,6 +485,10 @@ def case_records(cid, maxlen):
             for k in range(d.nvals):
                 if c.fmts[d.fmt].attrs[k][1] in CONTAINERS and k not in d.null_sp:
                     c.emit("rc %d %d" % (i, k))
+    # the character buffers of STRING attributes are never freed by the code: only ask
+    # LeakSanitizer when no format of the case has one
+    if not any(a[1] == "STRING" for f in c.fmts for a in f.attrs):
+        c.emit("leakcheck")
     return c
 
 
